@@ -44,11 +44,12 @@ type pspec struct {
 	typ  int  // 0 tcp 1 http 2 stcp 3 tcpmux 4 https
 	leaf int  // 0 = base object, k>0 = k-th settable leaf field changed
 	hc   bool // health check configured (monitor created)
+	omit int  // bit 0/1/2: intervalSeconds / timeoutSeconds / maxFailed left unset (as a file may)
 	bad  bool // plugin type that cannot be created: pxy.Run() fails
 }
 
 func (s pspec) val() int {
-	v := s.typ*100000 + s.leaf*4
+	v := s.typ*100000 + s.leaf*32 + (s.omit&7)*4
 	if s.hc {
 		v += 2
 	}
@@ -173,6 +174,15 @@ func buildCfg(s pspec) v1.ProxyConfigurer {
 	b.LocalIP = "127.0.19.250"
 	if s.hc {
 		b.HealthCheck = v1.HealthCheckConfig{Type: "tcp", IntervalSeconds: 1, TimeoutSeconds: 1, MaxFailed: 1}
+		if s.omit&1 != 0 {
+			b.HealthCheck.IntervalSeconds = 0
+		}
+		if s.omit&2 != 0 {
+			b.HealthCheck.TimeoutSeconds = 0
+		}
+		if s.omit&4 != 0 {
+			b.HealthCheck.MaxFailed = 0
+		}
 		b.LocalPort = closedPort
 	}
 	if s.bad {
@@ -212,6 +222,32 @@ func variantsSane() (int, error) {
 		}
 	}
 	return n, nil
+}
+
+// cfgDiff names the first leaf in which two configuration objects differ
+func cfgDiff(a, b v1.ProxyConfigurer) string {
+	var walk func(x, y reflect.Value, path string) string
+	walk = func(x, y reflect.Value, path string) string {
+		if x.Kind() == reflect.Struct {
+			for i := 0; i < x.NumField(); i++ {
+				if !x.Type().Field(i).IsExported() {
+					continue
+				}
+				if d := walk(x.Field(i), y.Field(i), path+"."+x.Type().Field(i).Name); d != "" {
+					return d
+				}
+			}
+			return ""
+		}
+		if !reflect.DeepEqual(x.Interface(), y.Interface()) {
+			return fmt.Sprintf("%s: held %v, loaded %v", strings.TrimPrefix(path, "."), x.Interface(), y.Interface())
+		}
+		return ""
+	}
+	if reflect.TypeOf(a) != reflect.TypeOf(b) {
+		return "different types"
+	}
+	return walk(reflect.ValueOf(a).Elem(), reflect.ValueOf(b).Elem(), "")
 }
 
 // ---- recording transporter ----
@@ -304,10 +340,11 @@ type rstep struct {
 }
 
 type robs struct {
-	msgs   [][3]int
-	result int
-	status [][5]int // name id phase haserr val
-	undead []string // wrappers that left the table but do not report phase closed
+	msgs    [][3]int
+	result  int
+	status  [][5]int // name id phase haserr val
+	undead  []string // wrappers that left the table but do not report phase closed
+	mutated []string // stored configuration objects that no longer deep-equal what was loaded
 }
 
 const (
@@ -327,6 +364,8 @@ type rrun struct {
 	ids     map[*proxy.Wrapper]int
 	nextID  int
 	cfgVal  map[v1.ProxyConfigurer]int
+	cfgSpec map[v1.ProxyConfigurer]pspec
+	mutated []string
 	workCb  chan struct{}
 	cancel  context.CancelFunc
 	invalid string
@@ -334,7 +373,7 @@ type rrun struct {
 
 func newRun() *rrun {
 	ctx, cancel := context.WithCancel(context.Background())
-	r := &rrun{tr: &recTransport{}, ids: map[*proxy.Wrapper]int{}, cfgVal: map[v1.ProxyConfigurer]int{},
+	r := &rrun{tr: &recTransport{}, ids: map[*proxy.Wrapper]int{}, cfgVal: map[v1.ProxyConfigurer]int{}, cfgSpec: map[v1.ProxyConfigurer]pspec{},
 		workCb: make(chan struct{}, 16), cancel: cancel}
 	r.pm = proxy.NewManager(ctx, &v1.ClientCommonConfig{}, r.tr, nil)
 	r.pm.SetInWorkConnCallback(func(_ *v1.ProxyBaseConfig, c net.Conn, _ *msg.StartWorkConn) bool {
@@ -370,6 +409,10 @@ func (r *rrun) observe(result int) robs {
 		v, ok := r.cfgVal[st.Cfg]
 		if !ok {
 			v = -1
+		} else if sp := r.cfgSpec[st.Cfg]; !reflect.DeepEqual(st.Cfg, buildCfg(sp)) {
+			// the object the wrapper holds is no longer what was loaded: something wrote into it
+			v = -3
+			o.mutated = append(o.mutated, fmt.Sprintf("configuration held for %s differs from the loaded one (%s)", st.Name, cfgDiff(st.Cfg, buildCfg(sp))))
 		}
 		he := 0
 		if st.Err != "" {
@@ -407,6 +450,7 @@ func (r *rrun) step(s rstep) robs {
 		for i, sp := range s.specs {
 			cfgs[i] = buildCfg(sp)
 			r.cfgVal[cfgs[i]] = sp.val()
+			r.cfgSpec[cfgs[i]] = sp
 		}
 		r.pm.UpdateAll(cfgs)
 		ws := r.pm.VerifWrappers()
@@ -576,6 +620,7 @@ func genSpecsChange(g *hx.Gen, cur []pspec, allowHC bool) []pspec {
 		}
 		if allowHC && g.Chance(0.3) {
 			sp.hc = true
+			sp.omit = g.Intn(8)
 		}
 		if g.Chance(0.1) {
 			sp.bad = true
@@ -606,6 +651,9 @@ func genSpecsChange(g *hx.Gen, cur []pspec, allowHC bool) []pspec {
 			i := g.Intn(len(s))
 			n := fresh(s[i].name)
 			n.hc = s[i].hc && allowHC
+			if !n.hc {
+				n.omit = 0
+			}
 			s[i] = n
 		}
 	}
@@ -704,6 +752,27 @@ func directedReconCases() [][]rstep {
 		// changed entry: stop + new wrapper; reply for the old registration reaches the new wrapper
 		{up(a, b), ok(0), up(a2, b), ok(0), {op: opWork, name: 0}, up(b), {op: opWork, name: 0}, {op: opClose}, up(a)},
 	}
+}
+
+// identical reloads (fresh objects every time) of health-checked proxies that leave each subset of
+// intervalSeconds / timeoutSeconds / maxFailed unset: nothing may be closed or re-registered
+func directedOmittedHealthFields() [][]rstep {
+	up := func(s ...pspec) rstep { return rstep{op: opUpdate, specs: s} }
+	ok := func(n int) rstep { return rstep{op: opResp, name: n, runOK: true} }
+	var cases [][]rstep
+	for omit := 0; omit < 8; omit += 4 {
+		a := pspec{name: 0, typ: 0, hc: true, omit: omit}
+		b := pspec{name: 1, typ: 1, hc: true, omit: omit + 1}
+		c := pspec{name: 2, typ: 2, hc: true, omit: omit + 2}
+		d := pspec{name: 3, typ: 3, hc: true, omit: omit + 3}
+		cases = append(cases, []rstep{
+			up(a, b, c, d),
+			{op: opHealth, name: 0, h: 0}, {op: opHealth, name: 1, h: 0}, {op: opHealth, name: 2, h: 0}, {op: opHealth, name: 3, h: 0},
+			ok(0), ok(1), ok(2), ok(3),
+			up(a, b, c, d), {op: opWork, name: 1}, up(d, c, b, a), up(a, b, c, d), {op: opWork, name: 3},
+		})
+	}
+	return cases
 }
 
 func directedHealthRecon() [][]rstep {
@@ -844,6 +913,10 @@ func reconViolations(steps []rstep, obs []robs) []map[string]string {
 					"what": fmt.Sprintf("step %d: work connection for p%d handed to the proxy although its phase was not running", i, s.name)})
 			}
 		}
+		for _, u := range obs[i].mutated {
+			out = append(out, map[string]string{"key": "reconcile:wrapper-mutated-its-configuration",
+				"what": fmt.Sprintf("step %d: %s", i, u)})
+		}
 		for _, u := range obs[i].undead {
 			out = append(out, map[string]string{"key": "reconcile:stopped-wrapper-not-closed",
 				"what": fmt.Sprintf("step %d: %s after it was stopped and removed from the table", i, u)})
@@ -879,6 +952,7 @@ func runReconcile(cfg *hx.RunCfg) error {
 	nB := cfg.N - nA
 	var batchA, batchB [][]rstep
 	batchA = append(batchA, directedHealthRecon()...)
+	batchA = append(batchA, directedOmittedHealthFields()...)
 	for len(batchA) < nA {
 		batchA = append(batchA, genReconCase(g, false, true))
 	}
